@@ -4,6 +4,7 @@
 #include <signal.h>
 #include <errno.h>
 #include <time.h>
+#include <setjmp.h>
 
 /* ================================================================== PRNG */
 prng_t G;
@@ -604,6 +605,13 @@ void fmt_bytes(char *dst, size_t cap, const uint8_t *p, size_t n)
 }
 
 /* ================================================================ driver */
+/* a crash inside the library during a behavioural (unsanitized) run makes that case inconclusive (memory errors are C03's subject); the run goes on with the next case */
+static sigjmp_buf case_jmp; static volatile sig_atomic_t in_case; static long n_crashes;
+static void on_crash(int sig)
+{
+        if (in_case) { in_case = 0; siglongjmp(case_jmp, sig); }
+        signal(sig, SIG_DFL); raise(sig);
+}
 static void on_alarm(int sig)
 {
         (void)sig;
@@ -668,6 +676,10 @@ int verif_main(int argc, char **argv)
         if (to < 0) to = b.sweep + b.random;
         trans_seen = calloc((297 * 297 + 7) / 8, 1);
         signal(SIGALRM, on_alarm);
+        if (!VERIF_ASAN) {
+                struct sigaction sa; memset(&sa, 0, sizeof sa); sa.sa_handler = on_crash; sa.sa_flags = SA_NODEFER;
+                sigaction(SIGSEGV, &sa, NULL); sigaction(SIGBUS, &sa, NULL); sigaction(SIGFPE, &sa, NULL); sigaction(SIGABRT, &sa, NULL); sigaction(SIGILL, &sa, NULL);
+        }
         struct timespec t0; clock_gettime(CLOCK_MONOTONIC, &t0);
         long ncases = 0;
         for (long c = from; c < to; c++) {
@@ -677,8 +689,18 @@ int verif_main(int argc, char **argv)
                 case_reset();
                 bool sweep = c < b.sweep;
                 pr_seed(&G, sweep ? 0x5EEDF00DULL : seed + 0x1000003ULL * (uint64_t)QCAP, (uint64_t)c);
-                chk_run_case(seed, c, sweep);
-                canary_check("end of case");
+                int crashed = VERIF_ASAN ? 0 : sigsetjmp(case_jmp, 1);
+                if (crashed == 0) {
+                        in_case = 1;
+                        chk_run_case(seed, c, sweep);
+                        in_case = 0;
+                        canary_check("end of case");
+                } else {
+                        char why[80]; snprintf(why, sizeof why, "the library crashed with signal %d (memory errors are C03's subject)", crashed);
+                        inconclusive(why); PHASE = 0; MX_DEPTH = 0;
+                        if (VERBOSE) fprintf(stderr, "CRASH signal %d in case %ld\n", crashed, c);
+                        if (++n_crashes > 500) break;
+                }
                 ncases++;
                 if (single >= 0) { printf("--- scenario ---\n"); chk_describe(stdout); printf("--- event log (tail) ---\n"); ev_dump(stdout, 200); }
                 if (nviol_total > 2000) break;
